@@ -35,5 +35,9 @@ pub fn assume(c: bool) { if !c { panic!("nondet: assumption violated in native r
 
 /// Number of draws taken so far (ghost counter; lets harnesses bound rejection loops).
 static mut DRAWS: usize = 0;
-pub fn count_draw() { unsafe { DRAWS += 1; } }
+static mut MAX_DRAWS: usize = usize::MAX;
+/// Fairness cut for rejection loops in the code under test: executions that need more than `n` draws
+/// are outside the explored space (a draw that is rejected forever is not a finding).
+pub fn set_max_draws(n: usize) { unsafe { MAX_DRAWS = n; DRAWS = 0; } }
+pub fn count_draw() { unsafe { assume(DRAWS < MAX_DRAWS); DRAWS += 1; } }
 pub fn draws() -> usize { unsafe { DRAWS } }
